@@ -460,6 +460,12 @@ def shard(ctx):
             judge(ctx, "parse_int", "literal", rule_text([], "parse_int(%s)" % gen.glit(sp)), [[sp]], "spelling")
         for sp in ["0", "-0.0", "+7.5", ".5", "5.", "1e3", "1E-3", "1e", "e3", "0x1p3", "1_0.0", " 1.5", "1,5", "١.٥"]:
             judge(ctx, "parse_float", "literal", rule_text([], "parse_float(%s)" % gen.glit(sp)), [[sp]], "spelling")
+        # integers given to the converters, one by one: small, boundary, powers of two and values that wrap to a digit in 8 / 16 / 32 bits
+        for iv in [0, 9, 10, -1, 255, 256, 261, 65536, 65541, 4294967296, 4294967301, -4294967291, 8589934601, 2 ** 31, 2 ** 31 + 3, -2 ** 31, 2 ** 53 + 1,
+                   9223372036854775807, -9223372036854775807, 48, 57]:       # i64::MIN cannot be written as a literal
+            for fn in ("parse_char", "parse_int", "parse_string", "parse_float", "parse_boolean"):
+                judge(ctx, fn, "literal", rule_text([], "%s(%d)" % (fn, iv)), [[iv]], "integer")
+                judge(ctx, fn, "variable", rule_text([("v", "%d" % iv)], "%s(%%v)" % fn), [[iv]], "integer")
     # ---- random strings through the unary string functions
     n = 60 if ctx.quick else 40000
     alphabet = "abXYeE z01925/%+-_.é"
